@@ -23,6 +23,7 @@ import (
 	"container/list"
 	"errors"
 	"fmt"
+	"regexp"
 	"strconv"
 	"strings"
 	"unicode"
@@ -41,6 +42,9 @@ var binaryEscapes = []byte{'\\', '"', '\b', '\f', '\n', '\r', '\t'}
 
 // JSON literals
 var literals = []string{"true", "false", "null"}
+
+// JSON number grammar (RFC 8259, section 6)
+var jsonNumber = regexp.MustCompile(`^-?(0|[1-9][0-9]*)(\.[0-9]+)?([eE][+-]?[0-9]+)?$`)
 
 func Transform(jsonData []byte) (result []byte, e error) {
 	// JSON data MUST be UTF-8 encoded
@@ -239,7 +243,12 @@ func Transform(jsonData []byte) (result []byte, e error) {
 				return literal
 			}
 		}
-		// Apparently not so we assume that it is a I-JSON number
+		// Apparently not so we assume that it is a I-JSON number. strconv.ParseFloat accepts more than the JSON
+		// grammar (hexadecimal floats, digit separators, a leading '+' or zeros, a bare point), hence the grammar first
+		if !jsonNumber.MatchString(value) {
+			setError("Invalid number: " + value)
+			return value
+		}
 		ieeeF64, err := strconv.ParseFloat(value, 64)
 		checkError(err)
 		value, err = NumberToJSON(ieeeF64)
